@@ -74,6 +74,7 @@ def run_harness(job):
             sigs = []
             first = [True]
             witnesses = []
+            probes = out.setdefault("_probes", [])
 
             def one_path(ex_):
                 if time.time() - t_start > budget and collect:
@@ -149,6 +150,9 @@ def run_harness(job):
                             c["unknown"] += 1
                             if len(out["inconclusive"]) < 50:
                                 out["inconclusive"].append({"claim": r["claim"], "trace_len": len(ex.trace)})
+                            for pr in r.get("probes", []):
+                                if len(probes) < 12:
+                                    probes.append(pr)
                         c["solver_s"] += r.get("solver_s", 0.0)
                 if kind == "exc":
                     tb = traceback.extract_tb(val.__traceback__)
@@ -214,6 +218,23 @@ def run_harness(job):
         # witness validation: proved paths re-run concretely in-process on the same module
         core.EX = None
         tol = spec.get("tol", getattr(mod, "TOL", (1e-6, 1e-9)))
+        # undecided claims: concrete probes at inputs in general position (a failing probe becomes a candidate)
+        for w in out.pop("_probes", []):
+            cctx = ConcreteCtx(S, w, rel=tol[0], abs_=tol[1], stop_on_fail=False)
+            cctx.only_claim = spec.get("only_claim")
+            try:
+                try:
+                    fn(cctx, **params)
+                except Allowed:
+                    pass
+            except (AssumptionNotMet, ClaimFailed):
+                pass
+            except Exception:
+                pass
+            out["probe_runs"] = out.get("probe_runs", 0) + 1
+            for cname, detail in cctx.failed:
+                if len([x for x in out["candidates"] if x["claim"] == cname]) < 4:
+                    out["candidates"].append({"kind": "claim", "claim": cname, "inputs": w, "unconfirmed": True, "from_probe": True})
         for w in witnesses:
             cctx = ConcreteCtx(S, w, rel=tol[0], abs_=tol[1])
             cctx.only_claim = spec.get("only_claim")
